@@ -7,3 +7,4 @@ from . import message
 from . import absolute
 from . import sequence
 from . import tokeniser
+from . import midi
